@@ -188,4 +188,27 @@ example :
     outIds (runOps exHC false { g := exCyc, c := Caches.empty } [.sealOp 0, .reqRaw 0, .reqRaw 1]).2
       ≠ [none, some (rawId exHC exCyc 0), some (rawId exHC exCyc 1)] := by decide
 
+/-! ### `CycleInv` holds in a reachable, non-empty cache state of a graph with a real 2-cycle (audit round 8, item 6) -/
+
+/-- two configurations referring to each other (`0 → 1 → 0`), node 0 sealed from the start. -/
+def ex2Cyc : Graph :=
+  { nodes := [{ typeId := [99], args := [{ name := [120], value := .ref 1 }], sealed := true },
+              { typeId := [98], args := [{ name := [121], value := .ref 0 }, { name := [122], value := .int 4 }] }] }
+
+example : OnCycle ex2Cyc 0 ∧ OnCycle ex2Cyc 1 :=
+  ⟨⟨[1], .cons (by unfold Edge; decide) (.single (by unfold Edge; decide))⟩,
+   ⟨[0], .cons (by unfold Edge; decide) (.single (by unfold Edge; decide))⟩⟩
+
+/-- after *seal 1, request 0, request 1, request 0* the raw caches of both members of the cycle are filled, and the cache
+    satisfies `CycleInv` (hypothesis of `cache_invariant_facts`). -/
+example :
+    let s := (runOps exHC true { g := ex2Cyc, c := Caches.empty } [.sealOp 1, .reqRaw 0, .reqRaw 1, .reqRaw 0]).1
+    CycleInv exHC ex2Cyc s.c.raw ∧ (s.c.raw 0).isSome = true ∧ (s.c.raw 1).isSome = true := by
+  intro s
+  have hdc : DefaultsClosed ex2Cyc := DefaultsClosed.of_B (by decide)
+  have hs : Good exHC ex2Cyc (CycleInv exHC ex2Cyc) s :=
+    runOps_good exHC exHC_order ex2Cyc _ (rawSound_general exHC ex2Cyc hdc) [.sealOp 1, .reqRaw 0, .reqRaw 1, .reqRaw 0] _
+      (by decide) (good_empty exHC ex2Cyc _ (fun _ _ _ h => by cases h))
+  exact ⟨hs.2.1, by decide, by decide⟩
+
 end XpmVerif.C01Cache
